@@ -283,7 +283,9 @@ VecOf ==
             [op |-> "apdu", tag |-> case.tag, wire |-> wire, exp |-> req @@ [same_owned |-> TRUE]]
       [] case.op = "u2f_encode" ->
             [op |-> "u2f_encode", tag |-> case.tag, resp |-> case.resp, pre |-> case.pre, cap |-> case.cap,
-             exp |-> [ok |-> ret.ok, keep |-> ret.keep, prefix |-> SubSeq(ret.buf, 1, ret.keep)]]
+             \* on failure only the bytes the buffer already held are specified
+             exp |-> IF ret.ok THEN [ok |-> TRUE, kept |-> case.pre, buf |-> ret.buf]
+                               ELSE [ok |-> FALSE, kept |-> case.pre]]
       [] case.op = "dispatch" ->
             [op |-> "dispatch", tag |-> case.tag, proto |-> case.proto, variant |-> case.variant,
              wire |-> case.wire, script |-> case.script, hasLb |-> case.hasLb,
